@@ -55,8 +55,10 @@ func (s *symSigner) Algorithm() cose.Algorithm {
 	return s.alg
 }
 
-func (s *symSigner) Sign(rand io.Reader, content []byte) ([]byte, error) {
-	s.log.add(J{"who": s.name, "call": "Sign", "content": ints(content)})
+func (s *symSigner) Sign(rand io.Reader, content []byte) (ret []byte, err error) {
+	defer func() {
+		s.log.add(J{"who": s.name, "call": "Sign", "content": ints(content), "ret": rawJ(ret), "reterr": errClass(err), "fault": s.fault})
+	}()
 	switch s.fault {
 	case "err":
 		return nil, errInjected
@@ -84,17 +86,17 @@ func (v *symVerifier) Algorithm() cose.Algorithm {
 
 func (v *symVerifier) Verify(content, signature []byte) error {
 	valid := string(signature) == string(pseudoSig(v.name, content))
-	v.log.add(J{"who": v.name, "call": "Verify", "content": ints(content), "sig": ints(signature), "valid": valid})
-	switch v.fault {
-	case "err":
-		return errInjectedVerify
-	case "accept":
-		return nil
+	var err error
+	switch {
+	case v.fault == "err":
+		err = errInjectedVerify
+	case v.fault == "accept" || valid:
+		err = nil
+	default:
+		err = cose.ErrVerification
 	}
-	if valid {
-		return nil
-	}
-	return cose.ErrVerification
+	v.log.add(J{"who": v.name, "call": "Verify", "content": ints(content), "sig": ints(signature), "valid": valid, "reterr": errClass(err), "fault": v.fault})
+	return err
 }
 
 // entropy source with a budget; logs reads
@@ -111,8 +113,9 @@ var errEntropy = errors.New("injected entropy failure")
 func (r *budgetReader) Read(p []byte) (int, error) {
 	r.mu.Lock()
 	defer r.mu.Unlock()
-	r.log.add(J{"who": "rand", "call": "Read", "n": len(p)})
 	n := len(p)
+	fail := r.budget >= 0 && (r.budget == 0 || (n > r.budget && !r.short))
+	r.log.add(J{"who": "rand", "call": "Read", "n": len(p), "fail": fail})
 	if r.budget >= 0 {
 		if r.budget == 0 {
 			return 0, errEntropy
@@ -512,6 +515,88 @@ func (w *world) step(st J) J {
 				}
 				o.Headers.Unprotected[lbl] = val
 				o.Headers.RawUnprotected = nil
+			case *cose.Countersignature:
+				if o.Headers.Unprotected == nil {
+					o.Headers.Unprotected = cose.UnprotectedHeader{}
+				}
+				o.Headers.Unprotected[lbl] = val
+				o.Headers.RawUnprotected = nil
+			}
+		case "extractcs":
+			// take a decoded countersignature object out of the unprotected bucket of a decoded parent
+			var u cose.UnprotectedHeader
+			switch o := w.objs[str(st["from"])].(type) {
+			case *cose.Sign1Message:
+				u = o.Headers.Unprotected
+			case *cose.SignMessage:
+				u = o.Headers.Unprotected
+			case *cose.Signature:
+				u = o.Headers.Unprotected
+			case *cose.Countersignature:
+				u = o.Headers.Unprotected
+			}
+			switch v := u[int64(num(st["label"]))].(type) {
+			case *cose.Countersignature:
+				w.objs[name] = v
+			case []*cose.Countersignature:
+				w.objs[name] = v[num(st["index"])]
+			default:
+				err = fmt.Errorf("no countersignature under label %v: %T", st["label"], v)
+			}
+		case "extractcs0":
+			var u cose.UnprotectedHeader
+			switch o := w.objs[str(st["from"])].(type) {
+			case *cose.Sign1Message:
+				u = o.Headers.Unprotected
+			case *cose.SignMessage:
+				u = o.Headers.Unprotected
+			case *cose.Signature:
+				u = o.Headers.Unprotected
+			case *cose.Countersignature:
+				u = o.Headers.Unprotected
+			}
+			if b, ok := u[int64(num(st["label"]))].([]byte); ok {
+				w.bufs[str(st["buf"])] = b
+			} else {
+				err = fmt.Errorf("no abbreviated countersignature under label %v", st["label"])
+			}
+		case "signhashenv":
+			signer := w.signerOf(st["signers"].([]any)[0])
+			h := headersOf(st["m"])
+			hp := st["hp"].(map[string]any)
+			pl := cose.HashEnvelopePayload{HashAlgorithm: cose.Algorithm(num(hp["alg"])), HashValue: bytesOf(hp["hash"]), Location: string(bytesOf(hp["loc"]))}
+			if hp["hashnil"] == true {
+				pl.HashValue = nil
+			} else if pl.HashValue == nil {
+				pl.HashValue = []byte{}
+			}
+			if hp["algval"] != nil {
+				// the hash algorithm is always of type Algorithm in the payload struct; algval only documents the case
+			}
+			if pct, ok := hp["pct"]; ok && pct != nil {
+				if pm, ok := pct.(map[string]any); ok && str(pm["t"]) != "absent" {
+					pl.PreimageContentType = goVal(pct)
+				}
+			}
+			var b []byte
+			b, err = cose.SignHashEnvelope(w.readerOf(st["rand"]), signer, h, pl)
+			w.bufs[str(st["buf"])] = b
+			obs["out"] = rawJ(b)
+			obs["outnil"] = b == nil
+			obs["hdrpost"] = projectHeaders(h)
+		case "verifyhashenv":
+			v := w.verifierOf(st["verifiers"].([]any)[0])
+			b := w.bufs[str(st["buf"])]
+			if raw, ok := st["bytes"]; ok {
+				b = bytesOf(raw)
+			}
+			var msg *cose.Sign1Message
+			msg, err = cose.VerifyHashEnvelope(v, b)
+			obs["msgnil"] = msg == nil
+			if msg != nil {
+				w.objs[name] = msg
+			} else {
+				delete(w.objs, name)
 			}
 		case "setsig":
 			// environment step: overwrite a signature field (transplant / corruption)
